@@ -502,3 +502,60 @@ func (r *Runner) FlatBurst(k int) {
 		}
 	}
 }
+
+// VecKeysProj logs, for every quantised vector index, which node ids have a
+// full-vector key ('v') and which a quantised one ('q') in the index bucket
+// (read through hook H1), and whether the quantiser's trained state is stored.
+func (r *Runner) VecKeysProj() {
+	for _, p := range r.Cfg.Props {
+		if p.Quant == nil || (p.Type != models.IndexTypeVectorFlat && p.Type != models.IndexTypeVectorVamana) {
+			continue
+		}
+		var vs, qs []int
+		stored := false
+		err := r.Shard.VerifDB().Read(func(bm diskstore.BucketManager) error {
+			b, err := bm.Get(fmt.Sprintf("index/%s/%s", p.Type, p.Name))
+			if err != nil {
+				return err
+			}
+			for _, k := range []string{"_binaryQuantizerThreshold", "_productQuantizerFlatCentroids"} {
+				if b.Get([]byte(k)) != nil {
+					stored = true
+				}
+			}
+			return b.ForEach(func(k, v []byte) error {
+				if id, ok := conversion.NodeIdFromKey(k, 'v'); ok {
+					vs = append(vs, int(id))
+				}
+				if id, ok := conversion.NodeIdFromKey(k, 'q'); ok {
+					qs = append(qs, int(id))
+				}
+				return nil
+			})
+		})
+		if err != nil {
+			// (an index that was never written has no bucket yet)
+			vs, qs = nil, nil
+		}
+		sort.Ints(vs)
+		sort.Ints(qs)
+		if vs == nil {
+			vs = []int{}
+		}
+		if qs == nil {
+			qs = []int{}
+		}
+		kind, trigger, fixed := "product", 0, 0
+		switch {
+		case p.Quant.Type == models.QuantizerBinary && p.Quant.Binary != nil:
+			kind, trigger = "binary", p.Quant.Binary.TriggerThreshold
+			if p.Quant.Binary.Threshold != nil {
+				fixed = 1
+			}
+		case p.Quant.Product != nil:
+			trigger = p.Quant.Product.TriggerThreshold
+		}
+		r.TW.Emit("VecKeys", M{"p": p.Name, "kind": kind, "fixed": fixed, "trigger": trigger, "entry": b2i(p.Type == models.IndexTypeVectorVamana),
+			"v": vs, "q": qs, "trained": b2i(stored)})
+	}
+}
